@@ -156,6 +156,44 @@ def long_cases(rng, words, full):
     return cases
 
 
+INTERESTING = sorted(set(list(range(33, 48)) + list(range(58, 65)) + list(range(91, 97)) +
+                        list(range(123, 127)) + [0x30, 0x39, 0x41, 0x5a, 0x7f, 0x80, 0xff, 0x20, 0x09, 0x0a]))
+
+
+def byte_table_cases(words):
+    """EXHAUSTIVE small domain (not random; every tier): the model decides quoting byte by byte,
+    so its per-byte table is compared with the C code for every byte value.
+      * every byte 1..255 as a one-byte name, and at first / middle / last position of an
+        otherwise plain lower-case name (?ab, a?b, ab?), plus as schema and as name of a
+        qualified name (a?b.t, s.a?b): lit, id, fq at a generous size, the exact fit and one less;
+      * all ordered PAIRS of the interesting bytes (ASCII punctuation incl. ` ~ @ [ \ ] ^ { | } $,
+        digits, upper case, 0x7f, 0x80, 0xff, blank, tab, newline) inside plain names
+        (a?!b, ?a!, a?b!): lit, id, fq at a generous size."""
+    wset = set(words)
+    cases = []
+    for c in range(1, 256):
+        cb = bytes([c])
+        ops = []
+        for s in (cb, cb + b"ab", b"a" + cb + b"b", b"ab" + cb):
+            h = vf.hexs(s)
+            ni, nl = ident_needed(s, wset), lit_needed(s)
+            ops += ["id %s %d" % (h, n) for n in (ni - 1, ni, 24)]
+            ops += ["lit %s %d" % (h, n) for n in (nl - 1, nl, 24)]
+            ops += ["fq %s %d" % (h, n) for n in (24, 40)]
+        for s in (b"a" + cb + b"b.t", b"s.a" + cb + b"b", cb + b"." + cb):
+            ops.append("fq %s 40" % vf.hexs(s))
+        cases.append(ops)
+    for p in INTERESTING:
+        ops = []
+        for q in INTERESTING:
+            pb, qb = bytes([p]), bytes([q])
+            for s in (b"a" + pb + qb + b"b", pb + b"a" + qb, b"a" + pb + b"b" + qb):
+                h = vf.hexs(s)
+                ops += ["id %s 24" % h, "fq %s 32" % h, "lit %s 24" % h]
+        cases.append(ops)
+    return cases
+
+
 def render_elem(rng, e):
     if e is None:
         return rng.choice([b"NULL", b"null", b"Null", b"nULL", b"nuLl"])
@@ -287,7 +325,9 @@ def run(ck):
         "at EVERY dstlen in 0..len+8 and around the exact fit; long inputs: schema parts of 120..135/200/300 "
         "bytes for pg_quote_fqident (across its 128-byte scmbuf) and 63..65/127..129/255/256-byte strings "
         "for all entry points, at sizes around the needed length (real and schema-cut-to-127), tiny and "
-        "generous; array: one case = a list rendered by the "
+        "generous; byte table (exhaustive, every tier): every byte 1..255 alone and at first/middle/last "
+        "position of a plain name and inside qualified names, all ordered pairs of 42 interesting bytes in "
+        "three shapes; array: one case = a list rendered by the "
         "generator (quoted/bare/escaped/NULL/blanks/dimension prefix) + every truncation + 1-byte "
         "substitutions at every position + insertions; kw: every word of the .g list and neighbours. "
         "evaluations = op lines run through implementation and model; distinct_nontrivial = distinct op "
@@ -358,6 +398,11 @@ def run(ck):
     hist["long_fq_schema_ge_128_ops"] = sum(1 for c in lcases for op in c if schema_len(op) >= 128)
     hist["long_fq_schema_120_127_ops"] = sum(1 for c in lcases for op in c if 120 <= schema_len(op) < 128)
     qcases += lcases
+    bcases = byte_table_cases(words)
+    hist["byte_table_cases"] = len(bcases)
+    hist["byte_table_ops"] = sum(len(c) for c in bcases)
+    hist["byte_table_exhaustive"] = "bytes 1..255 x 7 shapes; %d^2 pairs x 3 shapes" % len(INTERESTING)
+    qcases += bcases
     hist["quote_strings"] = len(qcases)
     hist["quote_ops"] = sum(len(c) for c in qcases)
     stream("quote", qcases)
